@@ -35,7 +35,7 @@ def harness_dir():
     src = os.path.join(VERIF, "harness")
     os.makedirs(dst, exist_ok=True)
     subprocess.run(
-        ["rsync", "-a", "--delete", "--exclude", "target*", src + "/", dst + "/"],
+        ["rsync", "-a", "--delete", "--exclude", "target*", "--exclude", "out", src + "/", dst + "/"],
         check=True,
     )
     for root, _dirs, files in os.walk(dst):
